@@ -26,7 +26,8 @@ ASSUMPTIONS = ['no entry exists at the original locations beforehand (clobbering
                'replies whose tokens int() accepts but are not plain digit strings (+1, " 1", 1_0) may be read either way',
                'the reply grammar itself is a pure function of the reply; the simulator contributes sorting, scoping and the effect on disk']
 PROBES = ['valid-reply', 'invalid-reply', 'empty-reply', 'eof', 'range', 'sort-none', 'sort-path', 'sort-date',
-          'scope-excludes-sibling-prefix', 'restored', 'scope-by-argument', 'tie-in-sort-key']
+          'scope-excludes-sibling-prefix', 'restored', 'scope-by-argument', 'tie-in-sort-key',
+          'nested-or-same-location-selection', 'nested-selection-all-free-in-reply-order']
 TECHNIQUE = 'deterministic simulation of trash-restore with fuzzed replies; listing/scoping/selection compared with an independent reply parser and scope predicate'
 LEVEL_TEXT = 'seeded exploration of reply strings x location sets x sort modes; what is printed at an index must be what is restored'
 LEVEL_NOTE = 'trusted: model/reply.py, model/bag.py; sampled'
@@ -85,12 +86,30 @@ def gen(rng):
         else:
             d = rng.choice([top + '/a', top + '/a/foo', top + '/ab', top])
         loc = d + '/' + rng.choice(cand)
-        if loc in used or any(u.startswith(loc + '/') or loc.startswith(u + '/') for u in used):
+        if loc in used:
+            continue
+        if any(u.startswith(loc + '/') or loc.startswith(u + '/') for u in used) and rng.random() < 0.6:
+            # nested original locations (a file trashed from inside a directory, then the directory) are kept in 40 % of the draws
             continue
         used.add(loc)
         pv = TG.pct(loc if top is None else loc[len(top) + 1:])
         date = rng.choice(dates) if rng.random() < 0.4 else TG.rand_date(rng)
         G.add_trashed(steps, tdir, 't%d' % i, pv, TG.iso(date), rng.choice(['file', 'dir', 'link']), tag=str(i))
+    nested = rng.random() < 0.15
+    if nested:
+        # a file trashed from inside a directory, then the directory itself (and possibly its parent): restoring the outer one
+        # first and the inner one into it works, the other way round the outer one finds its destination occupied
+        tdir, top, _u = rng.choice(locs)
+        root = (home if top is None else top) + '/nest%d' % rng.randrange(3)
+        chain = [root, root + '/in', root + '/in/ner'][:rng.randint(2, 3)]
+        rng.shuffle(chain)
+        for j, loc in enumerate(chain):
+            if loc in used:
+                continue
+            used.add(loc)
+            pv = TG.pct(loc if top is None else loc[len(top) + 1:])
+            G.add_trashed(steps, tdir, 'n%d' % j, pv, TG.iso(rng.choice(dates) if rng.random() < 0.3 else TG.rand_date(rng)),
+                          rng.choice(['dir', 'dir', 'file']), tag='n%d' % j)
     for d in [home + '/a', home + '/ab', home + '/a/sub']:
         steps.append(['d', d, 0o755])
     cwd = rng.choice(['/', home, home + '/a', home + '/ab', home + '/a/sub'] + L['vols'])
@@ -102,6 +121,13 @@ def gen(rng):
         argv.append(rng.choice(['/', home + '/a', home + '/a/foo', home + '/a/fo', home + '/ab', 'a', '../ab', '.', home + '/a/'] +
                                [v + '/a' for v in L['vols']]))
     reply = gen_reply(rng, min(n, 12))
+    if nested:
+        m = len(used)
+        perm = list(range(m))
+        rng.shuffle(perm)
+        reply = rng.choice([','.join(map(str, perm)), ','.join(map(str, perm[:3])), '0-%d' % (m - 1), ','.join(map(str, reversed(range(m)))), reply])
+        if rng.random() < 0.7:
+            argv = [a for a in argv if a == 'trash-restore' or a.startswith('--sort') or a in ('date', 'path', 'none')] + ['/']
     stdin = reply + '\n' if rng.random() < 0.9 else (reply if rng.random() < 0.5 else '')
     return {
         'world': {'mounts': L['mounts'], 'steps': steps},
@@ -219,6 +245,46 @@ def check(sim, case, st):
                 bad('restored-unselected', 'reply %r selects %r but %r left the trash' % (line, sorted(sel.elements()), sorted(rem.elements())))
             elif not clash and sel != rem:
                 bad('selected-not-restored', 'reply %r selects %r but only %r left the trash' % (line, sorted(sel.elements()), sorted(rem.elements())))
+            elif clash:
+                # selected locations nest or coincide: restoring one of them can occupy the destination of another (refusing that
+                # one is C06's business).  Sequential model in the order the reply names the indices: if in THAT order every
+                # destination is free when its turn comes, all of them must be restored.
+                st.probes['nested-or-same-location-selection'] += 1
+                order = []
+                for i in idxs:
+                    if i not in order:
+                        order.append(i)
+                kind = dict((k, v[0]) for k, v in snap0.items())
+                bykey = {}
+                for e in bag0:
+                    if e.location is not None:
+                        bykey.setdefault((str(e.date) if e.date else 'None', e.location), []).append(e)
+                all_free, known = True, True
+                for i in order:
+                    loc = listing[i][2]
+                    ents = bykey.get((listing[i][1], loc), [])
+                    if len(ents) != 1:
+                        known = False
+                        break
+                    anc, a = [], posixpath.dirname(loc)
+                    while a not in ('/', ''):
+                        anc.append(a)
+                        a = posixpath.dirname(a)
+                    if kind.get(loc) is not None or any(kind.get(a) not in (None, 'd') for a in anc):
+                        all_free = False
+                        break
+                    for a in anc:
+                        kind.setdefault(a, 'd')
+                    for rel, v in OR.payload_tree(snap0, ents[0]).items():
+                        kind[loc + rel] = v[0]
+                if known and all_free:
+                    st.probes['nested-selection-all-free-in-reply-order'] += 1
+                    if sel != rem:
+                        bad('selected-not-restored-in-reply-order',
+                            'reply %r selects %r; restored in the order the reply names them every destination is free at its turn, '
+                            'but only %r left the trash' % (line, [listing[i][2] for i in order], sorted(rem.elements())))
+                    elif r.exit != 0:
+                        bad('all-restored-but-exit-nonzero', 'reply %r: every selected entry was restored but the exit status is %s' % (line, r.exit))
             for e in removed:
                 st.probes['restored'] += 1
                 want = OR.payload_tree(snap0, e)
